@@ -330,4 +330,6 @@ def check(ctx):
     # a reloaded checkpoint continues with the state that was written: the reader stores the values
     # it read, unmodified (shared with C05)
     share(ctx, 'C05', 'R7/C05.', ['vii.', 'i.sequence', 'i.loop_counts', 'i.element_order', 'iii.'])
+    # the reduced data reach the stored result whatever order the compiler evaluates arguments in (shared with C04)
+    share(ctx, 'C04', 'R8/C04.', ['R6.evaluation_order'])
 
